@@ -352,12 +352,41 @@ func genVals(r *Rand, min int) [][]byte {
 	n := min + r.Intn(4)
 	if r.Chance(5) {
 		n = 20 + r.Intn(20)
+	} else if r.Chance(5) {
+		n = pick(r, []int{7, 8, 9, 10, 15, 16, 17, 31, 32, 33})
 	}
 	out := make([][]byte, 0, n)
 	for i := 0; i < n; i++ {
-		out = append(out, advBytes(r))
+		out = append(out, genElem(r, out))
 	}
 	return out
+}
+
+// genCount: a list length - mostly small, now and then around the powers of two and well beyond.
+func genCount(r *Rand) int {
+	if r.Chance(6) {
+		return pick(r, []int{7, 8, 9, 10, 15, 16, 17, 31, 32, 33, 64, 65, 100})
+	}
+	return r.Intn(5)
+}
+
+// genElem: a fresh element, or - now and then - one the list already has (verbatim or with its ASCII case flipped).
+func genElem(r *Rand, have [][]byte) []byte {
+	if len(have) > 0 && r.Chance(20) {
+		prev := append([]byte{}, have[r.Intn(len(have))]...)
+		if r.Bool() {
+			for i, b := range prev {
+				switch {
+				case b >= 'a' && b <= 'z':
+					prev[i] = b - 32
+				case b >= 'A' && b <= 'Z':
+					prev[i] = b + 32
+				}
+			}
+		}
+		return prev
+	}
+	return advBytes(r)
 }
 
 // genReq draws one well-formed request of the given kind.
@@ -379,23 +408,35 @@ func genReq(r *Rand, kind string) *ReqSpec {
 		q.Time = genInt31(r)
 		q.Types = r.Bool()
 		q.Filter, q.filterBER = genFilter(r)
-		for i, n := 0, r.Intn(5); i < n; i++ {
-			q.Attrs = append(q.Attrs, advBytes(r))
+		for i, n := 0, genCount(r); i < n; i++ {
+			if r.Chance(8) {
+				q.Attrs = append(q.Attrs, []byte(pick(r, []string{"*", "+", "1.1", "cn", "CN", "objectClass", "objectclass"})))
+				continue
+			}
+			q.Attrs = append(q.Attrs, genElem(r, q.Attrs))
 		}
 		if q.Attrs == nil {
 			q.Attrs = [][]byte{}
 		}
 	case "modify":
 		q.DN = advBytes(r)
-		n := r.Intn(5)
+		n := genCount(r)
 		for i := 0; i < n; i++ {
-			q.Changes = append(q.Changes, sber.Change{Op: int64(r.Intn(4)), Attr: sber.Attr{Type: advBytes(r), Vals: genVals(r, 0)}})
+			typ := advBytes(r)
+			if i > 0 && r.Chance(20) {
+				typ = append([]byte{}, q.Changes[r.Intn(i)].Attr.Type...) // the same attribute changed again
+			}
+			q.Changes = append(q.Changes, sber.Change{Op: int64(r.Intn(4)), Attr: sber.Attr{Type: typ, Vals: genVals(r, 0)}})
 		}
 	case "add":
 		q.DN = advBytes(r)
-		n := r.Intn(5)
+		n := genCount(r)
 		for i := 0; i < n; i++ {
-			q.AddAttrs = append(q.AddAttrs, sber.Attr{Type: advBytes(r), Vals: genVals(r, 1)})
+			typ := advBytes(r)
+			if i > 0 && r.Chance(20) {
+				typ = append([]byte{}, q.AddAttrs[r.Intn(i)].Type...) // the same attribute type once more
+			}
+			q.AddAttrs = append(q.AddAttrs, sber.Attr{Type: typ, Vals: genVals(r, 1)})
 		}
 	case "delete":
 		q.DN = advBytes(r)
